@@ -250,7 +250,9 @@ class Builder:
                 else:
                     raw = pad_text(str(ov), n, rng, "r" if k != "pstr" else "l")
                 val = self._read(k, raw)
-                return raw, Leaf(k, raw, val, nullable=nullable, off=start), val
+                # an override that blanks the field (all spaces / all NULs) is a blank like the generated ones
+                is_blank = isinstance(ov, bytes) and n > 0 and raw.strip(b" ") in (b"", b"\x00" * n)
+                return raw, Leaf(k, raw, val, blank=is_blank, nullable=nullable, off=start), val
             if hint is not None:
                 text, val = self._gen_required(hint, n, k)
                 raw = pad_text(text, n, rng, hint.get("align"))
